@@ -17,12 +17,15 @@ Next ==
      ELSE
        LET paired2 == IF e.a = "pair" /\ e.ok THEN paired \cup {"ctrl-" \o e.x}
                       ELSE IF e.a = "unpair" /\ e.ok THEN paired \ {"ctrl-" \o e.x} ELSE paired IN
-       /\ Report("ActionAccepted", e.ok)      \* an honest pairing / removal is accepted (sanity for the rules below)
+       \* an honest pairing / removal is accepted (sanity for the rules below); one that names the accessory itself may be refused
+       /\ Report("ActionAccepted", e.ok \/ e.x = "self")
        /\ (e.running =>
              /\ Report("IdentityStable", first[1] = None \/ (e.id = first[1] /\ e.ltpk = first[2]))
              /\ Report("IdentityStable", e.id = e.uuidfile)
+             \* every controller that paired and was not removed still verifies against the key it learned when it paired
+             /\ Report("IdentityStable", e.kept)
              /\ Report("SfRule", (e.sf = 1) <=> (paired2 = {}))
-             /\ Report("PairingsPersist", SetOf(e.pairings) = paired2)
+             /\ Report("PairingsPersist", SetOf(e.pairings) = paired2 \ {"ctrl-self"})
              /\ (e.a = "start" =>
                    Report("CnumRule", IF prevS = None THEN e.cnum >= 1
                                       ELSE IF prevS # e.x THEN e.cnum > prevC ELSE e.cnum = prevC))
